@@ -110,6 +110,10 @@ void EGLPNUM_TYPENAME_ILLsimplex_init_lpinfo (
 {
 	EGLPNUM_TYPENAME_ILLbasis_init_basisinfo (lp);
 	EGLPNUM_TYPENAME_init_internal_lpinfo (lp);
+	/* the status records are looked at by the query functions (QSget_objval)
+	 * also when no simplex has run on the problem yet */
+	init_lp_status_info (&(lp->probstat));
+	init_lp_status_info (&(lp->basisstat));
 }
 
 void EGLPNUM_TYPENAME_ILLsimplex_free_lpinfo (
